@@ -8,7 +8,8 @@ from pgradd.GroupAdd.Library import GroupLibrary  # noqa: E402
 import pgradd.ThermoChem  # noqa: E402,F401
 from libs_fp import fingerprint  # noqa: E402
 
-GET = {'cp': 'get_CpoR', 'h': 'get_HoRT', 's': 'get_SoR', 'g': 'get_GoRT'}
+GET = {'cp': 'get_CpoR', 'h': 'get_HoRT', 's': 'get_SoR', 'g': 'get_GoRT',
+       'cp_se': 'get_CpoR_SE', 'h_se': 'get_HoRT_SE', 's_se': 'get_SoR_SE'}
 
 
 def main():
